@@ -40,6 +40,7 @@ CONSTANTS
     Dirs,            \* directory ids
     Styles, Quotes, Cms,   \* surface alternatives of a directive
     Wants,           \* generator shaping: the tree has a branch at least this deep
+    Caps,            \* generator shaping: the graph has at most cap files, cap drawn from Caps (<= MaxFiles)
     Entries,         \* subset of {"file", "string"}: open/load of a file, loads of a string
     Mode,            \* "all" (exhaustive) | "walk" (simulation: one random choice per action)
     ExactDefects,    \* TRUE: a graph is started only with exactly MaxBack / MaxMissing defects
@@ -52,7 +53,7 @@ VARIABLES
     fs, dir, level, parent,
     cur,             \* file under construction (files are filled in breadth-first order)
     spine,           \* deepest file of the branch that has to reach level want
-    want,
+    want, cap,
     nback, nmiss,
     entry,           \* "file" | "string"
     cwd0,            \* working directory when the call is made
@@ -62,7 +63,7 @@ VARIABLES
     out,             \* Seq(<<file, line>>): chunks written so far
     status           \* "idle" | "running" | "done" | "errDepth" | "errMissing"
 
-gvars == <<n, fs, dir, level, parent, cur, spine, want, nback, nmiss, entry, cwd0>>
+gvars == <<n, fs, dir, level, parent, cur, spine, want, cap, nback, nmiss, entry, cwd0>>
 mvars == <<stack, depth, out, status>>
 vars  == <<phase, gvars, cwd, mvars>>
 
@@ -141,13 +142,13 @@ Directive(t) ==
 AddContent ==
     /\ phase = "build" /\ RoomLine /\ ~LastIsContent(cur)
     /\ fs' = [fs EXCEPT ![cur] = Append(@, [k |-> "c"])]
-    /\ UNCHANGED <<phase, n, dir, level, parent, cur, spine, want, nback, nmiss, entry, cwd0, cwd, mvars>>
+    /\ UNCHANGED <<phase, n, dir, level, parent, cur, spine, want, cap, nback, nmiss, entry, cwd0, cwd, mvars>>
 
 AddFile ==
     /\ phase = "build"
     /\ level[cur] < MaxDepth
     /\ Fan(cur) < MaxFan /\ Len(fs[cur]) < MaxLines
-    /\ IF SpinePending THEN n + 1 <= MaxFiles ELSE n + 1 + Need <= MaxFiles
+    /\ IF SpinePending THEN n + 1 <= cap ELSE n + 1 + Need <= cap
     /\ \E d \in Pick(Dirs) : \E ln \in Directive(n + 1) :
          /\ fs' = Append([fs EXCEPT ![cur] = Append(@, ln)], <<>>)
          /\ dir' = Append(dir, d)
@@ -155,25 +156,25 @@ AddFile ==
     /\ level' = Append(level, level[cur] + 1)
     /\ parent' = Append(parent, cur)
     /\ spine' = IF SpinePending THEN n + 1 ELSE spine
-    /\ UNCHANGED <<phase, cur, want, nback, nmiss, entry, cwd0, cwd, mvars>>
+    /\ UNCHANGED <<phase, cur, want, cap, nback, nmiss, entry, cwd0, cwd, mvars>>
 
 AddBack ==
     /\ phase = "build" /\ RoomInc /\ nback < MaxBack
     /\ \E a \in Pick(AncOrSelf(cur)) : \E ln \in Directive(a) :
          fs' = [fs EXCEPT ![cur] = Append(@, ln)]
     /\ nback' = nback + 1
-    /\ UNCHANGED <<phase, n, dir, level, parent, cur, spine, want, nmiss, entry, cwd0, cwd, mvars>>
+    /\ UNCHANGED <<phase, n, dir, level, parent, cur, spine, want, cap, nmiss, entry, cwd0, cwd, mvars>>
 
 AddMissing ==
     /\ phase = "build" /\ RoomInc /\ nmiss < MaxMissing
     /\ \E ln \in Directive(Missing) : fs' = [fs EXCEPT ![cur] = Append(@, ln)]
     /\ nmiss' = nmiss + 1
-    /\ UNCHANGED <<phase, n, dir, level, parent, cur, spine, want, nback, entry, cwd0, cwd, mvars>>
+    /\ UNCHANGED <<phase, n, dir, level, parent, cur, spine, want, cap, nback, entry, cwd0, cwd, mvars>>
 
 NextFile ==
     /\ phase = "build" /\ cur < n /\ ~SpinePending
     /\ cur' = cur + 1
-    /\ UNCHANGED <<phase, n, fs, dir, level, parent, spine, want, nback, nmiss, entry, cwd0, cwd, mvars>>
+    /\ UNCHANGED <<phase, n, fs, dir, level, parent, spine, want, cap, nback, nmiss, entry, cwd0, cwd, mvars>>
 
 Start ==
     /\ phase = "build" /\ cur = n /\ ~SpinePending
@@ -249,6 +250,7 @@ Init ==
     /\ cur = 1
     /\ spine = 1
     /\ want \in Wants
+    /\ cap \in {c \in Caps : c > want /\ c <= MaxFiles}
     /\ nback = 0
     /\ nmiss = 0
     /\ entry \in Entries
@@ -271,7 +273,7 @@ SpecUnfair == Init /\ [][Next]_vars          \* (negative config: without fairne
 
 TypeOK ==
     /\ phase \in {"build", "run"}
-    /\ n \in 1..MaxFiles /\ Len(fs) = n /\ Len(dir) = n /\ Len(level) = n /\ Len(parent) = n
+    /\ n \in 1..cap /\ cap <= MaxFiles /\ Len(fs) = n /\ Len(dir) = n /\ Len(level) = n /\ Len(parent) = n
     /\ \A f \in 1..n : /\ Len(fs[f]) <= MaxLines /\ Fan(f) <= MaxFan /\ level[f] <= MaxDepth
                        /\ \A i \in IncIdx(f) : fs[f][i].t \in 0..n
     /\ nback <= MaxBack /\ nmiss <= MaxMissing
